@@ -45,18 +45,22 @@ def interrupt_first_order(run, tier):
     rnd = random.Random(seed() * 17 + 11)
     n = 70 if tier == "quick" else 700
     K = 5 if tier == "quick" else 8
-    progs = []
+    progs, impl = [], []
     for i in range(n):
-        p = po.sample_program(rnd, i)
-        progs.append((po.render(p, list(range(len(p["impls"]))), False, False), po.OPEN_GOALS[:13]))
+        p = po.sample_program(rnd, i, finite_share=0.5); impl.append(p)
+        progs.append((po.render(p, list(range(len(p["impls"]))), False, False), po.OPEN_GOALS[:len(po.OPEN_CONJ)], i))
     for p in pm.sample_programs(n // 2, rnd, False):
         if pm.co_generic(p): continue
-        progs.append((pm.render_mini(p), [pm.GOALS[i - 1] for i in pm.OPEN_GOALS]))
+        progs.append((pm.render_mini(p), [pm.GOALS[i - 1] for i in pm.OPEN_GOALS], None))
+    # the solution sets of the ImplMC goals: an interrupted answer whose definite guidance is stronger than the full answer's is still admissible
+    # if every solution satisfies it (the full answer may be weaker than necessary; it is the truth that must not be contradicted)
+    recs = po.implmc_records(run, impl, "C11impl")
+    if recs is None: return
     nint = 0
     for solver in (gc.SLG, gc.REC):               # (cache off: exponential on these programs even without interruption)
         sname = gc.solver_name(solver)
         jobs = []
-        for i, (text, goals) in enumerate(progs):
+        for i, (text, goals, pid) in enumerate(progs):
             jobs.append({"id": len(jobs), "program": text, "solver": solver, "detail": True, "ops": [{"op": "solve", "goal": g, "fresh": True} for g in goals]})
             for k in range(1, K + 1):
                 ops = []
@@ -66,7 +70,7 @@ def interrupt_first_order(run, tier):
                 jobs.append({"id": len(jobs), "program": text, "solver": solver, "detail": True, "ops": ops})
         obs = harness.run("solve", jobs, timeout=300)
         it = iter(zip(jobs, obs))
-        for i, (text, goals) in enumerate(progs):
+        for i, (text, goals, pid) in enumerate(progs):
             job0, full = next(it)
             runs = [next(it) for _ in range(K)]
             base = {"solver": sname, "src": "first-order"}
@@ -87,7 +91,13 @@ def interrupt_first_order(run, tier):
                     key = abstract(r, f)
                     if None in key: continue
                     if interrupted: nint += 1
-                    if not tab[key]:
+                    ok = tab[key]
+                    if not ok and key[0] == "Definite" and key[2] in ("Definite", "Suggested", "Unknown") and pid is not None:
+                        pat = po.answer_pattern(r.get("text"))
+                        ok = pat is not None and all(po.instance_of(x, pat) for x in recs[pid]["sols"][gi])
+                    if not ok and key[0] == "None" and key[2] in ("Definite", "Suggested", "Unknown") and pid is not None:
+                        ok = not recs[pid]["sols"][gi]            # (no solution among the closed types of depth <= 3: the claim is not contradicted)
+                    if not ok:
                         run.violation(dict(base, what="interrupted solve claims more than the full answer", interrupted=key[0], full=key[2], relation=key[1]), rp)
                     elif after.get("text") != f.get("text"):
                         run.violation(dict(base, what="solve after an interrupted solve differs from a fresh solve", op="solve", prior_interrupted=True), rp)
